@@ -60,6 +60,7 @@ def general_stats(cases, results):
         "edits_during_build": 0,
         "ninja_errors": collections.Counter(),
         "via_sh": 0,
+        "latent_undeclared_reads": set(),
     }
     for c in cases:
         for res in results.get(c["id"], []):
@@ -86,6 +87,8 @@ def general_stats(cases, results):
                         st["faults_planned"][kind] += 1
                     for a in n.get("anomalies", []):
                         st["anomalies"][a["k"]] += 1
+                        if a["k"] == "hb.undeclared_read":
+                            st["latent_undeclared_reads"].add((a.get("rule"), os.path.basename(a.get("path", ""))))
                     for s in n["steps"]:
                         if "edit" in s:
                             st["edits_during_build"] += 1
@@ -106,6 +109,8 @@ def general_stats(cases, results):
     for k, v in st.items():
         if isinstance(v, collections.Counter):
             out[k] = {str(kk): vv for kk, vv in sorted(v.items(), key=lambda t: str(t[0]))}
+        elif k == "latent_undeclared_reads":
+            out["latent_undeclared_reads"] = sorted("%s reads %s" % t for t in v)
         elif isinstance(v, set):
             out["distinct_" + k] = len(v)
         else:
